@@ -3,17 +3,23 @@
 // Contracts for package alloctxn, checked by /verif/govc (comment-only file).
 package alloctxn
 
-//@ specfunc atxnInv(a *AllocTxn) = a != nil && superInv(a.Super) && acceptedSize(dsksize) && a.Op != nil && a.Balloc != nil && a.Ialloc != nil && base(a.Balloc) == theBalloc && base(a.Ialloc) == theIalloc && theBalloc != theIalloc
+// Each of the four lists owns its backing array (no other field refers to it).
+//@ owned alloctxn.AllocTxn.allocInums
+//@ owned alloctxn.AllocTxn.freeInums
+//@ owned alloctxn.AllocTxn.allocBnums
+//@ owned alloctxn.AllocTxn.freeBnums
+//@ predicate atxnInv(a *AllocTxn) = a != nil && superInv(a.Super) && acceptedSize(dsksize) && a.Op != nil && a.Balloc != nil && a.Ialloc != nil && base(a.Balloc) == theBalloc && base(a.Ialloc) == theIalloc && theBalloc != theIalloc
 //@ specfunc validBlk(b uint64) = b >= 1539 + dsksize/32768 && b < dsksize
 //@ specfunc validInum(i uint64) = i >= 2 && i < 32768
-//@ specfunc allocBValid(a *AllocTxn) = forall i uint64 :: i < len(a.allocBnums) ==> validBlk(a.allocBnums[i])
-//@ specfunc freeBValid(a *AllocTxn) = forall i uint64 :: i < len(a.freeBnums) ==> validBlk(a.freeBnums[i])
-//@ specfunc allocIValid(a *AllocTxn) = forall i uint64 :: i < len(a.allocInums) ==> validInum(a.allocInums[i])
-//@ specfunc freeIValid(a *AllocTxn) = forall i uint64 :: i < len(a.freeInums) ==> validInum(a.freeInums[i])
-//@ specfunc listsDisjoint(a *AllocTxn) = base(a.allocBnums) != base(a.freeBnums) && base(a.allocBnums) != base(a.allocInums) && base(a.allocBnums) != base(a.freeInums) && base(a.freeBnums) != base(a.allocInums) && base(a.freeBnums) != base(a.freeInums) && base(a.allocInums) != base(a.freeInums)
-//@ specfunc listsValid(a *AllocTxn) = listsDisjoint(a) && allocBValid(a) && freeBValid(a) && allocIValid(a) && freeIValid(a)
+//@ predicate allocBValid(a *AllocTxn) = forall i uint64 :: i < len(a.allocBnums) ==> validBlk(a.allocBnums[i])
+//@ predicate freeBValid(a *AllocTxn) = forall i uint64 :: i < len(a.freeBnums) ==> validBlk(a.freeBnums[i])
+//@ predicate allocIValid(a *AllocTxn) = forall i uint64 :: i < len(a.allocInums) ==> validInum(a.allocInums[i])
+//@ predicate freeIValid(a *AllocTxn) = forall i uint64 :: i < len(a.freeInums) ==> validInum(a.freeInums[i])
+// an append keeps a list's backing array or moves it to a fresh one
+//@ specfunc listsStable(a *AllocTxn) = (base(a.allocBnums) == old(base(a.allocBnums)) || fresh(a.allocBnums)) && (base(a.freeBnums) == old(base(a.freeBnums)) || fresh(a.freeBnums)) && (base(a.allocInums) == old(base(a.allocInums)) || fresh(a.allocInums)) && (base(a.freeInums) == old(base(a.freeInums)) || fresh(a.freeInums))
+//@ specfunc listsValid(a *AllocTxn) = allocBValid(a) && freeBValid(a) && allocIValid(a) && freeIValid(a)
 // Allocator invariant (C15-G4 / C04): every non-data block and the two reserved inodes stay marked.
-//@ specfunc allocInv() = (forall b uint64 :: b < asize[theBalloc] && !validBlk(b) ==> abits[theBalloc][b]) && abits[theIalloc][0] && abits[theIalloc][1] && asize[theBalloc] == 32768*(dsksize/32768+1) && asize[theIalloc] == 32768
+//@ predicate allocInv() = (forall b uint64 :: b < asize[theBalloc] && !validBlk(b) ==> abits[theBalloc][b]) && abits[theIalloc][0] && abits[theIalloc][1] && asize[theBalloc] == 32768*(dsksize/32768+1) && asize[theIalloc] == 32768
 
 //@ spec (*AllocTxn).AssertValidBlock
 //@   props C11 C15
@@ -27,7 +33,7 @@ package alloctxn
 //@   modifies abits, atxn.allocBnums, atxn.allocBnums[*]
 //@   ensures [G4-range] result == 0 || validBlk(result) @C15 @C04
 //@   ensures [G4-wasfree] result != 0 ==> !old(abits)[theBalloc][result] && abits[theBalloc][result] @C15 @C05
-//@   ensures [lists-disjoint] listsDisjoint(atxn)
+//@   ensures [lists-stable] listsStable(atxn)
 //@   ensures [lists-allocB] allocBValid(atxn)
 //@   ensures [lists-freeB] freeBValid(atxn)
 //@   ensures [lists-allocI] allocIValid(atxn)
@@ -52,7 +58,7 @@ package alloctxn
 //@   ensures [G4-inumrange] result == 0 || validInum(result) @C15 @C04 @C11
 //@   ensures [G4-inumwasfree] result != 0 ==> !old(abits)[theIalloc][result] && abits[theIalloc][result] @C15 @C05
 //@   ensures result != 0 ==> freshinum[result]
-//@   ensures listsValid(atxn)
+//@   ensures listsValid(atxn) && listsStable(atxn)
 //@   ensures [F5-recorded] result != 0 ==> len(atxn.allocInums) == old(len(atxn.allocInums)) + 1 && atxn.allocInums[old(len(atxn.allocInums))] == result @C05 @C09
 //@   ensures result == 0 ==> len(atxn.allocInums) == old(len(atxn.allocInums)) && abits == old(abits)
 
@@ -61,7 +67,7 @@ package alloctxn
 //@   requires atxnInv(atxn) && listsValid(atxn) && lastst == 0
 //@   requires [valid] validInum(inum) @C04 @C11
 //@   modifies atxn.freeInums, atxn.freeInums[*]
-//@   ensures listsValid(atxn)
+//@   ensures listsValid(atxn) && listsStable(atxn)
 //@   ensures [F5-recorded] len(atxn.freeInums) == old(len(atxn.freeInums)) + 1 && atxn.freeInums[old(len(atxn.freeInums))] == inum @C05
 
 // R3: every number in nums gets its bit written into the transaction, at an
@@ -112,6 +118,6 @@ package alloctxn
 //@   requires [I1-valid] blkno == 0 || validBlk(blkno) @C04 @C11
 //@   allocates buf.Buf
 //@   modifies buf.Buf.dirty, []uint8, atxn.freeBnums, atxn.freeBnums[*]
-//@   ensures listsValid(atxn)
+//@   ensures listsValid(atxn) && listsStable(atxn)
 //@   ensures [F5-recorded] blkno != 0 ==> len(atxn.freeBnums) == old(len(atxn.freeBnums)) + 1 && atxn.freeBnums[old(len(atxn.freeBnums))] == blkno @C05
 //@   ensures blkno == 0 ==> len(atxn.freeBnums) == old(len(atxn.freeBnums))
